@@ -399,6 +399,11 @@ theorem soft_refines_rational (p : Prog) (hf : 2 ≤ p.fmt.p ∧ 2 ≤ p.fmt.ew)
       List.Forall₂ (fun (kv : Nat × Nat) (q : ℚ) => ∃ k, kinds[kv.1]? = some k ∧ Rv p.fmt k kv.2 q) (p.outs.zip outs) qs :=
   refines p ⟨hf.1, hf.2⟩ kinds hk lib ins insQ hins env he hfin outs ho
 
+/-- every regenerated C10 program passes the kind check of the refinement theorem, so on every run in
+which no float node overflows (and no non-finite constant is involved) its bit patterns denote its
+ℚ-run with round-to-nearest-even -/
+theorem refinement_scope : ∀ e ∈ FAVerif.Gen.C10.all, (kindsOf e.2.nodes []).isSome = true := by decide +kernel
+
 /-- the regenerated unscaled Dekker programs are all-float -/
 theorem dekker_kinds : ∀ p ∈ [mul_dekker_f16, mul_dekker_f32, mul_dekker_f64, utils_multiply_dekker_f16, utils_multiply_dekker_f32,
       utils_multiply_dekker_f64], kindsOf p.nodes [] = some (List.replicate 21 false) := by decide +kernel
